@@ -85,6 +85,12 @@ def main():
         rank = rng.randint(1, 3)
         shape = tuple(rng.randint(1, 6) for _ in range(rank))
         src = (np.arange(int(np.prod(shape)), dtype="i4") * 3 + 1).reshape(shape)
+        # the served array may be laid out in memory in any order (Fortran order, a transposed view): same shape, same values
+        lay = rng.randrange(3)
+        if len(shape) >= 2 and lay == 1:
+            src = np.asfortranarray(src)
+        elif len(shape) >= 2 and lay == 2:
+            src = np.ascontiguousarray(src.swapaxes(0, 1)).swapaxes(0, 1)
         maps = [np.arange(n, dtype="f8") * 10 + k for k, n in enumerate(shape)]
         ds = DatasetType("d")
         ds["x"] = BaseType("x", src)
@@ -216,7 +222,7 @@ def main():
         w = D.Var("y", "Float64", [("anon", n) for n in shape], src.astype("f8") / 4)
         grp.members.append(w)
         root.members += [v, grp]
-        app4 = D.Dap4App(root, little=rng.random() < 0.5, chunk_sizes=[rng.choice([3, 7, 64])] * 3)
+        app4 = D.Dap4App(root, little=rng.random() < 0.5, chunk_sizes=[rng.choice([3, 7, 64])] * 3, flag_all=rng.random() < 0.6)
         try:
             c4 = open_url("http://localhost:8001/", application=app4, protocol="dap4")
             for idx in rng.sample(idxs, min(len(idxs), 25 if T == "quick" else 120)):
